@@ -57,8 +57,10 @@ INSTR_PKGS = ["internal/jsonrpc2", "mcp"]
 HARNESS_PKGS = {"jsonrpc2": "internal/jsonrpc2", "mcp": "mcp", "auth": "auth", "oauthex": "oauthex", "jsonrpc": "jsonrpc"}
 
 
-def make_overlay(mode, extra_replace=None):
+def make_overlay(mode, extra_replace=None, exclude=(), fallback=()):
     """mode: 'instr', 'plain' or 'race' (= plain SDK code + the E1 harness bodies, for the free-running -race pass).
+    exclude: harness files (base names without .go) left out of the build; fallback: harness files replaced by
+    their <name>.go.fallback twin (a variant that does not look at the SDK's private state).
     Returns overlay.json path."""
     out = os.path.join(BUILD, mode)
     if os.path.isdir(out):
@@ -76,6 +78,10 @@ def make_overlay(mode, extra_replace=None):
                 continue
             dst = f"{pkg}/zz_verif_{f[:-3]}_test.go"
             src = os.path.join(d, f)
+            if f[:-3] in exclude:
+                continue
+            if f[:-3] in fallback:
+                src += ".fallback"
             if f.startswith("e1_"):
                 if mode == "race":
                     cmd += ["-add", f"{dst}={src}"]
@@ -114,29 +120,58 @@ def make_overlay(mode, extra_replace=None):
     return ov
 
 
-def build_test(mode, pkg, race=False, extra_replace=None):
+BUILD_NOTES = []
+
+
+def build_test(mode, pkg, race=False, extra_replace=None, prop=None):
     """Builds the test binary of pkg under the overlay; returns its path."""
     os.makedirs(BUILD, exist_ok=True)
     lock = open(os.path.join(BUILD, "lock"), "w")
     fcntl.flock(lock, fcntl.LOCK_EX)
     try:
-        ov = make_overlay(mode, extra_replace)
         race = race or mode == "race"
         rundir = os.path.join(BUILD, "run-%d" % os.getpid())
         os.makedirs(rundir, exist_ok=True)
         out = os.path.join(rundir, "%s-%s%s.test" % (mode, pkg.replace("/", "_"), "-race" if race else ""))
-        cmd = ["go", "test", "-c", "-vet=off", "-overlay", ov, "-o", out]
-        if race and not os.environ.get("VERIF_COVER"):
-            cmd.append("-race")
-        if os.environ.get("VERIF_COVER"):
-            # development aid: statement coverage of the SDK by the plain-build and free-running parts
-            cmd += ["-cover", "-coverpkg=./mcp,./auth,./internal/authutil,./internal/json,./internal/jsonrpc2,./internal/util,./internal/xcontext,./jsonrpc,./oauthex"]
-        cmd.append("./" + pkg)
+        exclude, fallback = set(), set()
         t0 = time.time()
-        r = run(cmd, cwd=REPO, env=goenv(), capture_output=True, text=True)
-        if r.returncode != 0:
-            log("build failed (%s %s):\n%s%s" % (mode, pkg, r.stdout, r.stderr))
-            raise SystemExit(2)
+        while True:
+            ov = make_overlay(mode, extra_replace, exclude, fallback)
+            cmd = ["go", "test", "-c", "-vet=off", "-overlay", ov, "-o", out]
+            if race and not os.environ.get("VERIF_COVER"):
+                cmd.append("-race")
+            if os.environ.get("VERIF_COVER"):
+                # development aid: statement coverage of the SDK by the plain-build and free-running parts
+                cmd += ["-cover", "-coverpkg=./mcp,./auth,./internal/authutil,./internal/json,./internal/jsonrpc2,./internal/util,./internal/xcontext,./jsonrpc,./oauthex"]
+            cmd.append("./" + pkg)
+            r = run(cmd, cwd=REPO, env=goenv(), capture_output=True, text=True)
+            if r.returncode == 0:
+                break
+            # All harness files of a package are compiled together.  A harness file that no longer compiles
+            # against this tree (it reads private state of the SDK that a change has renamed or reshaped) must
+            # not take the other properties' checks down with it: files of *other* properties are left out and
+            # the build is repeated; a file of this property is replaced by its .fallback twin (black-box
+            # variant) when it has one.  Anything else is a harness error (exit 2, never a VIOLATION).
+            failing = set(re.findall(r"(?:zz_verif_(\w+)_test\.go|harness/\w+/(\w+)\.go(?:\.fallback)?):\d+", r.stdout + r.stderr))
+            failing = {a or b for a, b in failing}
+            progress = False
+            for f in sorted(failing):
+                hdir = [h for h, p_ in HARNESS_PKGS.items() if p_ == pkg][0]
+                own = prop is None or re.search(r"_%s(?![0-9])" % prop.lower(), f) or f.startswith("common_")
+                if f not in fallback and os.path.exists(os.path.join(VERIF, "harness", hdir, f + ".go.fallback")):
+                    fallback.add(f)
+                    progress = True
+                elif not own and f not in exclude:
+                    exclude.add(f)
+                    progress = True
+            if not progress or len(exclude) + len(fallback) > 40:
+                log("build failed (%s %s):\n%s%s" % (mode, pkg, r.stdout, r.stderr))
+                raise SystemExit(2)
+        if exclude or fallback:
+            BUILD_NOTES.append("harness files that do not compile against this tree (they read SDK internals that changed): "
+                               "left out (other properties') %s; replaced by their black-box variant %s"
+                               % (sorted(exclude), sorted(fallback)))
+            log("NOTE: " + BUILD_NOTES[-1])
         log("built %s %s in %.1fs" % (mode, pkg, time.time() - t0))
         return out
     finally:
@@ -155,7 +190,7 @@ def run_part(prop, part, tier, replay=None, seed=0, known_file=None, binary=None
     """Runs one part (package/mode/test) sharded over processes. Returns list of shard results + harness errors."""
     pkg, mode, test = part["pkg"], part["mode"], part["test"]
     race = part.get("race", False)
-    binary = binary or build_test(mode, pkg, race)
+    binary = binary or build_test(mode, pkg, race, prop=prop)
     nshards = 1 if replay else min(NCPU, part.get("shards", NCPU))
     if mode == "race":
         if replay:
@@ -472,6 +507,8 @@ def check(prop, tier, replay=None, quiet=False):
     finally:
         wall = time.time() - t0
     ev, viols = merge(prop, tier, seed, cfg["level"], all_res, herr, wall)
+    if BUILD_NOTES:
+        ev["coverage"]["build_notes"] = sorted(set(BUILD_NOTES))
     if not replay and not os.environ.get("VERIF_NO_EVIDENCE"):
         os.makedirs(os.path.join(VERIF, "evidence"), exist_ok=True)
         json.dump(ev, open(os.path.join(VERIF, "evidence", prop + ".json"), "w"), indent=1)
